@@ -3,6 +3,7 @@
   the first error ends the evaluation.
 -/
 import RevalModel.Lemmas.Lazy
+import RevalModel.Lemmas.Strict
 
 namespace Reval.C05
 
@@ -99,6 +100,15 @@ theorem list_left_to_right (env : Env) (rp : List Nat) (i : Nat) (e : Expr) (es 
     (evalList env rp i (e :: es) st).2.2 = ev ++ (evalList env rp (i + 1) es st1).2.2 := by
   simp only [evalList, h]; split <;> simp_all
 
+/-- "everything else once": an expression without `if` / `and` / `or` / `==` / `!=` that yields a value has reached EVERY one of
+    its call sites — not just a subsequence —, each exactly once, in the static left-to-right order (list items by position, map
+    entries by key) -/
+theorem strict_evaluates_everything_once (env : Env) (rp : List Nat) (e : Expr) (st : St) (hs : e.strict = true)
+    (v : Value) (st1 : St) (ev : List Event) (h : eval env rp e st = (.ok v, st1, ev)) :
+    reached ev = sites rp e ∧ (reached ev).Nodup := by
+  have := strict_ok_reaches_all env rp e st hs v st1 ev h
+  exact ⟨this, this ▸ sites_nodup rp e⟩
+
 /-! non-vacuity: a lazy `if` over logging functions — only `t` and `a` are invoked, in that order -/
 def demoEnv : Env :=
   ⟨.none, [], [(['t'], ⟨false, fun _ _ => .ok (.bool true)⟩), (['a'], ⟨false, fun _ v => .ok v⟩),
@@ -106,5 +116,10 @@ def demoEnv : Env :=
 example :
     invokedCalls (eval demoEnv [] (.ite (.call ['t'] (.lit (.int 1))) (.call ['a'] (.lit (.int 2))) (.call ['b'] (.lit (.int 3)))) St.init).2.2
       = [(['t'], .int 1), (['a'], .int 2)] := by decide
+
+def strictDemo : Expr :=
+  .vec [.call ['a'] (.lit (.int 1)), .bin .add (.call ['a'] (.lit (.int 2))) (.call ['a'] (.call ['a'] (.lit (.int 3))))]
+example : strictDemo.strict = true ∧ (eval demoEnv [] strictDemo St.init).1 = .ok (.vec [.int 1, .int 5]) ∧
+    reached (eval demoEnv [] strictDemo St.init).2.2 = [[0], [0, 1], [0, 1, 1], [1, 1]] := by decide
 
 end Reval.C05
